@@ -246,6 +246,7 @@ namespace bloch::runtime {
             Value value;
             bool tracked = false;
             bool initialized = false;
+            std::string declaredClass = "";  // static class of a class-typed variable or parameter
         };
         // One lexical scope: the variables by name, plus the order in which they were declared,
         // so that a scope's objects die in reverse declaration order whatever they are called.
